@@ -254,7 +254,7 @@ class G:
 def random_sessions(n, seed, tag, p_ill=0.0, first_id=1):
     out = []
     for i in range(n):
-        g = G(hash((seed, tag, i)) & 0x7fffffff if False else (seed * 1000003 + i * 7919 + sum(ord(c) for c in tag)), p_ill)
+        g = G(seed * 1000003 + i * 7919 + sum(ord(c) for c in tag), p_ill)
         out.append({"id": first_id + i, "items": g.session(), "stdin": [], "meta": {"family": tag, "index": i}})
     return out
 
